@@ -11,7 +11,7 @@ K == Kinds \cup {"ok"}
 SeqsUpTo(S, n) == UNION {[1..m -> S] : m \in 0..n}
 Init == /\ sc \in [retryMax : 0..MaxRetry, crossRetry : 0..1, retryGet : BOOLEAN, get : BOOLEAN,
                    nobody : BOOLEAN, subA : SeqsUpTo(K, 2) \ {<<>>}, subB : SeqsUpTo(K, 1),
-                   finishAt : 0..3, conc : 1..3]
+                   finishAt : 0..3, finishAtEnd : BOOLEAN, conc : 1..3]
         /\ done = FALSE
 Next == ~done /\ done' = TRUE /\ UNCHANGED sc
 Emit == done => PrintT(ToJson(sc))
